@@ -564,7 +564,8 @@ def evalNew (w : World) (i : Nat) (j : Json) : World × Json :=
     -- the in-flight call's own result: the insert behind a write lock times out (Backend); a read succeeds —
     -- unless the pool was closed under it (store close)
     -- (store close: `remove_all` also drops the session that holds the lock, so the waiting insert may get through)
-    let own : List String := if target == "store" then ["Success", "Backend"] else if mode == "lock" then ["Backend"] else ["Success"]
+    -- (`lock_held`: the harness saw the locking transaction's insert succeed; without that fact the insert may also get through)
+    let own : List String := if target == "store" then ["Success", "Backend"] else if mode == "lock" then (if bool! t "lock_held" then ["Backend"] else ["Success", "Backend"]) else ["Success"]
     let outcomes := closeRaceOutcomes (bool! j "commit") (.ok ())
     let closeName (r : Except Err Unit) : String := match r with | .ok _ => "Success" | .error e => (Code.ofErr e).name
     let allowed :=
